@@ -392,6 +392,11 @@ func (w *W) mergeIte(g *smt.Term, a, b Value) Value {
 		if x == b.(FloatV) {
 			return x
 		}
+	case BigV:
+		if y, ok := b.(BigV); ok {
+			p, q := w.bigCommon(x.Mag, y.Mag, 0)
+			return BigV{Mag: w.C.Ite(g, p, q)}
+		}
 	}
 	// shapes differ: decide the guard on this path
 	if w.Branch(g) {
